@@ -79,6 +79,8 @@ def plan(tier, seed):
 
 
 def worker_init(arg):
+    import logging
+    logging.disable(logging.WARNING)  # onnx_ir / torch.onnx chatter must not reach the check's output
     from vf.props import c08_core as K
     K.T()
 
